@@ -9,11 +9,11 @@
 def exactsum(l,s,i=0,r=None):
     if r is None: r = []
     n = len(l)
-    if s==0: return True
+    if s==0: return r
     if s<0 or i==n: return False
-    if exactsum(l,s-l[i][1],i+1,r):
+    if exactsum(l,s-l[i][1],i+1,r) is not False:
         r.append(l[i])
-        return True if i else r
+        return r
     else:
         return exactsum(l,s,i+1,r)
 
